@@ -113,6 +113,9 @@ def gen_inputs(ctx, tier):
     nshaped = 8000 if tier == "quick" else core.share(150000)
     for _ in range(nshaped):
         inputs.append(("shaped", gen_text.shaped(rng)))
+    nmac = 8000 if tier == "quick" else core.share(150000)
+    for _ in range(nmac):
+        inputs.append(("macro_soup", gen_text.macro_soup(rng)))
     # every exported procedure called with 0..3 arguments of assorted types, directly and from tail positions
     args_pool = ["1", "'a", "'(1 2)", "#(1 2)", "car", "\"s\"", "-1", "1/2", "1.5", "'()", "#t"]
     for name in gen_text.stdlib_exports():
